@@ -177,7 +177,10 @@ def run_program(ctx, sig, ctx_at, mode, style):
     try:
         if mode.startswith('view'):
             reg = pjrpc.server.MethodRegistry()
-            reg.view(ns['View'], context='anything')
+            # the view's context name goes to the constructor; it deliberately coincides with an ordinary parameter name
+            # of the method (when there is one): that parameter still belongs to the caller
+            ordinary = [p[0] for p in params if p[1] in ('PK', 'KO', 'PO')]
+            reg.view(ns['View'], context=ordinary[0] if ordinary else 'anything')
             disp.add_methods(reg)
         elif mode == 'none':
             disp.add(ns['f'], 'f')
